@@ -99,12 +99,46 @@ func driverMain(args []string) int {
 }
 
 // spawn runs one worker process to completion and parses its output.
+// hangRecord is what a worker leaves behind when its watchdog fired.
+type hangRecord struct {
+	Run    uint64  `json:"run"`
+	Seed   uint64  `json:"seed"`
+	Leg    string  `json:"leg"`
+	LimitS float64 `json:"limit_s"`
+	Stacks string  `json:"stacks"`
+}
+
+// hangBlame looks for a goroutine of the bubble that is running (not blocked)
+// and whose innermost non-runtime frame belongs to the engine: a driver or
+// search goroutine that spins without ever blocking or polling.
+func hangBlame(stacks string) (bool, string) {
+	for _, g := range strings.Split(stacks, "\n\n") {
+		head, body, _ := strings.Cut(g, "\n")
+		if !strings.Contains(head, "synctest bubble") || !(strings.Contains(head, "[running") || strings.Contains(head, "[runnable")) {
+			continue
+		}
+		for _, l := range strings.Split(body, "\n") {
+			if strings.HasPrefix(l, "\t") || strings.HasPrefix(l, "runtime.") || strings.HasPrefix(l, "created by") || strings.TrimSpace(l) == "" {
+				continue
+			}
+			if strings.HasPrefix(l, "github.com/paulsonkoly/chess-3/") {
+				return true, strings.TrimSpace(head) + " " + strings.TrimSpace(l)
+			}
+			if strings.HasPrefix(l, "verif/sim") {
+				break
+			}
+		}
+	}
+	return false, ""
+}
+
 type workerOut struct {
 	runs    []*RunResult
 	summary *WorkerSummary
 	stderr  string
 	err     error
 	cur     string
+	hang    *hangRecord
 }
 
 func (d *driver) spawn(job Job, gomaxprocs int) *workerOut {
@@ -160,6 +194,11 @@ func (d *driver) spawnBin(bin string, job Job, gomaxprocs int) *workerOut {
 				s := &WorkerSummary{}
 				if json.Unmarshal(line, s) == nil {
 					wo.summary = s
+				}
+			case "hang":
+				h := &hangRecord{}
+				if json.Unmarshal(line, h) == nil {
+					wo.hang = h
 				}
 			}
 		}
@@ -431,6 +470,9 @@ func (d *driver) check(prop, tier string) int {
 					// the process died; if the engine is to blame the run is a finding
 					// and the exploration goes on behind it
 					blame, _ := crashBlame(wo.stderr)
+					if wo.hang != nil {
+						blame, _ = hangBlame(wo.hang.Stacks)
+					}
 					rc := caseFromSidecar(wo.cur)
 					if !blame || rc == nil {
 						return
@@ -459,6 +501,14 @@ func (d *driver) check(prop, tier string) int {
 		if wo.summary == nil {
 			// the worker died: a panic outside the search seam
 			blame, what := crashBlame(wo.stderr)
+			kindOverride := ""
+			if wo.hang != nil {
+				blame, what = hangBlame(wo.hang.Stacks)
+				kindOverride = "livelock"
+				if !blame {
+					what = fmt.Sprintf("run %d (seed %d, leg %s) exceeded the %v s watchdog with no engine goroutine running", wo.hang.Run, wo.hang.Seed, wo.hang.Leg, wo.hang.LimitS)
+				}
+			}
 			rc := caseFromSidecar(wo.cur)
 			if rc == nil || !blame {
 				fmt.Fprintf(os.Stderr, "HARNESS: worker %d died without a verdict (%v): %s\n%s\n", i, wo.err, what, tail(wo.stderr, 3000))
@@ -469,6 +519,9 @@ func (d *driver) check(prop, tier string) int {
 				kind = "fatal"
 			}
 			v := Violation{Property: propertyOfCrash(prop), Kind: kind, Detail: "driver process died: " + what}
+			if kindOverride != "" {
+				v = Violation{Property: prop, Kind: kindOverride, Detail: fmt.Sprintf("a goroutine of the engine ran for more than %v s of real time without blocking or reaching an abort poll: %s", wo.hang.LimitS, what)}
+			}
 			found = append(found, finding{run: &RunResult{Run: rc.Run, Seed: rc.Seed, Leg: rc.Leg, Case: rc, Violations: []Violation{v}}, v: v, from: "crash"})
 			agg.Runs++
 			agg.Stats["driver_process_crashes"]++
@@ -613,8 +666,8 @@ func (d *driver) check(prop, tier string) int {
 			fmt.Printf("  kind=%s leg=race seed=%d session=%d\n  %s\n", f.v.Kind, f.run.Seed, f.run.Run, tail(f.v.Detail, 1200))
 			continue
 		}
-		if violations <= 3 && os.Getenv("VERIF_NO_MINIMISE") == "" {
-			d.minimise(rf, kf)
+		if violations <= 3 && os.Getenv("VERIF_NO_MINIMISE") == "" && f.v.Kind != "livelock" {
+			d.minimise(rf, kf) // (a livelock costs a watchdog period per replay: reported unminimised)
 		}
 		p := d.writeReplay(prop, rf)
 		// the replay file must reproduce in a fresh process
@@ -635,6 +688,11 @@ func (d *driver) check(prop, tier string) int {
 		if wo.summary == nil {
 			if b, _ := crashBlame(wo.stderr); b {
 				ok = true
+			}
+			if wo.hang != nil {
+				if b, _ := hangBlame(wo.hang.Stacks); b && f.v.Kind == "livelock" {
+					ok = true
+				}
 			}
 		}
 		fmt.Printf("VIOLATION property=%s replay=%s\n", prop, p)
@@ -773,6 +831,14 @@ func (d *driver) replay(path string) int {
 		return 0
 	}
 	wo := d.spawn(Job{Property: rf.Property, Replay: path, Keep: true}, 0)
+	if wo.summary == nil && wo.hang != nil {
+		if blame, what := hangBlame(wo.hang.Stacks); blame {
+			fmt.Printf("VIOLATION property=%s replay=%s\n  livelock: %s\n", rf.Property, path, what)
+			return 1
+		}
+		fmt.Println("replay exceeded the watchdog with no engine goroutine running")
+		return 2
+	}
 	if wo.summary == nil {
 		blame, what := crashBlame(wo.stderr)
 		fmt.Println(tail(wo.stderr, 4000))
